@@ -521,6 +521,7 @@ type Clause struct {
 }
 
 type LoopSpec struct {
+	Exhaustive bool // no exit other than the loop condition becoming false
 	N          int
 	Invariants []*Clause
 	Decreases  *Clause
@@ -570,9 +571,17 @@ type FuncContract struct {
 	LocalsLine string
 }
 
+// AtAssert: an assertion or ghost update anchored at a program point:
+//   at assign v#k: set g = e | assert e      (after the k-th store to local v)
+//   at loop N back: assert e                 (on every back edge of loop N)
+//   at send#k: assert e                      (before the k-th channel send; $v = value sent)
 type AtAssert struct {
-	At  string // "return#k" etc (unused for now)
-	Cl  *Clause
+	Anchor  string // "assign", "loopback", "send"
+	Var     string
+	Ord     int
+	Cl      *Clause  // assert
+	Set     *GhostSet
+	Matched int
 }
 
 type SpecFunc struct {
@@ -611,8 +620,9 @@ type ContractFile struct {
 }
 
 var reFuncHdr = regexp.MustCompile(`^(func|iface|extern)\s+(\S+)(.*)$`)
-var reLoop = regexp.MustCompile(`^loop\s+(\d+)\s*:\s*(invariant|decreases)\s+(.*)$`)
+var reLoop = regexp.MustCompile(`^loop\s+(\d+)\s*:\s*(invariant|decreases|exhaustive)\b\s*(.*)$`)
 var reCalls = regexp.MustCompile(`^calls\s+(\S+?)#(\d+|\*)\s*:\s*(requires|ensures|set|pure)\b\s*(.*)$`)
+var reAt = regexp.MustCompile(`^at\s+(assign\s+(\w+)#(\d+)|loop\s+(\d+)\s+back|send#(\d+))\s*:\s*(assert|set)\s+(.*)$`)
 var reSpecFunc = regexp.MustCompile(`^spec\s+(?:func|macro)\s+(\w+)\s*\(([^)]*)\)\s*([\w.\[\]*$]+)\s*(?:=\s*(.*))?$`)
 var reGhost = regexp.MustCompile(`^ghost\s+(\w+)\s+([\w.\[\]*]+)\s*=\s*(.*)$`)
 var reSet = regexp.MustCompile(`^(\w+)\s*=\s*(.*)$`)
@@ -631,7 +641,7 @@ func ParseContractFile(path string) (*ContractFile, error) {
 	// First join continuation lines.  A //@ line starts a new clause if its
 	// first word is a keyword; otherwise it continues the previous clause.
 	keywords := map[string]bool{"func": true, "iface": true, "extern": true, "requires": true, "ensures": true, "loop": true,
-		"calls": true, "spec": true, "axiom": true, "lemma": true, "ghost": true, "modifies": true, "alias": true, "pure": true, "locals": true, "end": true}
+		"calls": true, "spec": true, "axiom": true, "lemma": true, "ghost": true, "modifies": true, "alias": true, "pure": true, "locals": true, "end": true, "at": true}
 	var raws []rawClause
 	for i, line := range strings.Split(string(data), "\n") {
 		tl := strings.TrimSpace(line)
@@ -722,6 +732,10 @@ func ParseContractFile(path string) (*ContractFile, error) {
 				ls = &LoopSpec{N: n}
 				cur.Loops[n] = ls
 			}
+			if m[2] == "exhaustive" {
+				ls.Exhaustive = true
+				continue
+			}
 			cl, err := mk(m[2], m[3], rc.line)
 			if err != nil {
 				return nil, err
@@ -777,6 +791,48 @@ func ParseContractFile(path string) (*ContractFile, error) {
 					cs.Ensures = append(cs.Ensures, cl)
 				}
 			}
+		case reAt.MatchString(body):
+			if cur == nil {
+				return nil, fmt.Errorf("%s:%d: clause outside func", path, rc.line)
+			}
+			m := reAt.FindStringSubmatch(body)
+			aa := &AtAssert{}
+			switch {
+			case m[2] != "":
+				aa.Anchor, aa.Var = "assign", m[2]
+				aa.Ord, _ = strconv.Atoi(m[3])
+			case m[4] != "":
+				aa.Anchor = "loopback"
+				aa.Ord, _ = strconv.Atoi(m[4])
+			default:
+				aa.Anchor = "send"
+				aa.Ord, _ = strconv.Atoi(m[5])
+			}
+			if m[6] == "set" {
+				sm := reSet.FindStringSubmatch(m[7])
+				if sm == nil {
+					return nil, fmt.Errorf("%s:%d: bad set clause", path, rc.line)
+				}
+				e, err := ParseExpr(sm[2])
+				if err != nil {
+					return nil, fmt.Errorf("%s:%d: %v", path, rc.line, err)
+				}
+				aa.Set = &GhostSet{sm[1], e, sm[2]}
+			} else {
+				cl, err := mk("assert", m[7], rc.line)
+				if err != nil {
+					return nil, err
+				}
+				n := 0
+				for _, o := range cur.Asserts {
+					if o.Cl != nil {
+						n++
+					}
+				}
+				cl.N = n + 1
+				aa.Cl = cl
+			}
+			cur.Asserts = append(cur.Asserts, aa)
 		case reGhost.MatchString(body):
 			if cur == nil {
 				return nil, fmt.Errorf("%s:%d: ghost outside func", path, rc.line)
